@@ -200,7 +200,7 @@ def cases(draw, dialects=None):
             elif draw(st.integers(0, 3)) == 0:
                 e['table'] = nm.table()
             kind = draw(st.sampled_from(['implicit', 'implicit', 'implicit', 'single', 'single', 'auto', 'composite',
-                                         'composite_ref', 'single_ref']))
+                                         'composite_ref', 'single_ref', 'single_ref']))
             earlier_roots = [x for x in ents[:-1]]
             if kind in ('composite_ref', 'single_ref') and not earlier_roots:
                 kind = 'composite'
@@ -346,11 +346,14 @@ def cases(draw, dialects=None):
         return t
 
     wide_ents = [x for x in ents if pk_width[root_of[x['name']]] > 1]
+    # ... of which: the primary key is ONE attribute (a reference) that spans several columns
+    wide_single = [x for x in wide_ents if not by_name[root_of[x['name']]]['pk']]
     for _ in range(draw(st.integers(0, 4))):
         kind = draw(st.sampled_from(kinds))
         e1 = draw(st.sampled_from(ents))
         if kind in ('m2m', 'self_m2m', 'self_sym_m2m') and wide_ents and draw(st.integers(0, 2)) == 0:
-            e1 = draw(st.sampled_from(wide_ents))       # a link-table half that spans several columns
+            e1 = draw(st.sampled_from(wide_single if wide_single and draw(st.booleans()) else wide_ents))
+            # a link-table half that spans several columns
         e2 = e1 if kind.startswith('self') else draw(st.sampled_from(ents))
         if kind == 'm2m' and draw(st.booleans()):
             e1, e2 = e2, e1
